@@ -17,6 +17,9 @@ from vlib.vsym import lift, rv
 PID = "C17"
 
 
+CYCLE_OBJECTIVE = {"T3": {"R1": 1}, "T4": {"R2": 1}, "T6": {"R1": 1}}
+
+
 def c17_loopless_solution(E, templates=(("T3", ("R1", "R2", "R3")), ("T3", ("EX_A", "R3", "DM_B")), ("T4", ("R3", "R1", "R2"))),
                           given=("default",)):
     env.for_path(E)
@@ -24,9 +27,11 @@ def c17_loopless_solution(E, templates=(("T3", ("R1", "R2", "R3")), ("T3", ("EX_
     m = networks.build(tid)
     networks.symbolic_bounds(E, m, which=list(which), delta=0.01)
     obj = networks.T[tid]["objectives"][0]
+    if E.pick("objective_on", ["boundary-reaction", "cycle-reaction"]) == "cycle-reaction":
+        obj = CYCLE_OBJECTIVE[tid]          # a cycle that touches the objective
     m.objective = {m.reactions.get_by_id(r): c for r, c in obj.items()}
     start_kind = E.pick("start", list(given))
-    E.note(template=tid, symbolic=list(which), start=start_kind)
+    E.note(template=tid, symbolic=list(which), start=start_kind, objective=sorted(obj))
     ids = [r.id for r in m.reactions]
     lp = fba_lp(m)
     status, opt, _, _ = lp.optimum(E, obj, "max", name="oracle")
@@ -48,6 +53,14 @@ def c17_loopless_solution(E, templates=(("T3", ("R1", "R2", "R3")), ("T3", ("EX_
         E.assume(lp.feasible(pt))
         E.assume(lp.lin(obj, pt) == opt)
         arg = dict(start)
+        if E.pick("given_order", ["model-order", "reversed"]) == "reversed":
+            arg = dict(reversed(list(start.items())))       # a mapping has no order the callee may rely on
+        if E.flag("another_problem_was_solved_last"):
+            # the solver is left 'optimal' on a different problem (other objective, tighter bound), then restored
+            with m:
+                m.objective = m.reactions[0]
+                m.optimize()
+            before = observe(m)
     n0 = len(E.solve_log)
     try:
         sol = loopless_solution(m, fluxes=arg)
